@@ -200,7 +200,7 @@ func runC31(c *core.Ctx) error {
 		res, err := c.TLC(core.TLCOpts{Module: "MC_Codec", Cfg: "MC_Codec.cfg", Workers: 8, Timeout: 20 * time.Minute,
 			Files: map[string][]byte{"SchemaData.tla": b.SchemaModule(tops)}, OnEmit: onEmit,
 			Consts: map[string]string{"SANITY": "TRUE", "MAXLEN": "2", "LONGSTR": "{}", "K": strconv.Itoa(c.Pick(2, 2)), "KMUT": strconv.Itoa(c.Pick(1, 2)),
-				"KJSON": "0", "KRE": "0", "KMUT2": "0", "KFN": "0", "EDGES": "FALSE"}})
+				"KJSON": "0", "KRE": "0", "KMUT2": "0", "KFN": "0", "KBAD": "0", "EDGES": "FALSE"}})
 		_ = drv.in.Close()
 		_ = drv.cmd.Wait()
 		b.Close()
